@@ -105,6 +105,7 @@ class RSocketBase(RSocket, RSocketInternal):
         self._frame_fragment_cache = FrameFragmentCache()
         self._send_queue = QueuePeekable()
         self._request_queue = asyncio.Queue(self._request_queue_size)
+        self._frames_behind_queued_request = {}
 
         if self._honor_lease:
             self._requester_lease = DefinedLease(maximum_request_count=0)
@@ -161,6 +162,7 @@ class RSocketBase(RSocket, RSocketInternal):
         logger().debug('%s: lease not allowing to send request. queueing', self._log_identifier())
 
         self._request_queue.put_nowait(frame)
+        self._frames_behind_queued_request[frame.stream_id] = []
 
     def send_priority_frame(self, frame: Frame):
         items = []
@@ -172,7 +174,13 @@ class RSocketBase(RSocket, RSocketInternal):
             self._send_queue.put_nowait(item)
 
     def send_frame(self, frame: Frame):
-        self._send_queue.put_nowait(frame)
+        # Frames of a stream must not overtake its request frame while that waits for a lease.
+        held_frames = self._frames_behind_queued_request.get(frame.stream_id)
+
+        if held_frames is not None:
+            held_frames.append(frame)
+        else:
+            self._send_queue.put_nowait(frame)
 
     def send_complete(self, stream_id: int):
         self.send_payload(stream_id, Payload(), complete=True, is_next=False)
@@ -289,7 +297,13 @@ class RSocketBase(RSocket, RSocketInternal):
         )
 
         while not self._request_queue.empty() and self._requester_lease.is_request_allowed():
-            self.send_frame(self._request_queue.get_nowait())
+            request_frame = self._request_queue.get_nowait()
+            held_frames = self._frames_behind_queued_request.pop(request_frame.stream_id, ())
+            self.send_frame(request_frame)
+
+            for held_frame in held_frames:
+                self.send_frame(held_frame)
+
             self._request_queue.task_done()
 
     async def _receiver(self):
